@@ -4,7 +4,7 @@ func init() {
 	register(&PropSpec{
 		ID:          "C03",
 		Level:       "other",
-		Decided:     "never allocates on the strength of an unbacked length (R13: no remaining-length value read from the wire reaches an allocation size unbounded - the parsers collect incrementally); never panics explicitly (R9: every panic statement / always-panicking helper in the three codecs is an obligation); never loops without consuming input (R2: no stutter path in any step function or dispatcher iteration); truncated input is an error at every entry point that knows the end (R8: one-shot entry points and decoders pass through the end-of-input check, the check itself tests the open-state stack).",
+		Decided:     "never allocates on the strength of an unbacked length (R13: no remaining-length value read from the wire reaches an allocation size unbounded - the parsers collect incrementally); never indexes input that is not there (R4: scan loops re-establish index < len(input), chunk heads are read only from non-empty chunks) and never turns a wire integer into a negative length (R5); never panics explicitly (R9: every panic statement / always-panicking helper in the three codecs is an obligation); never loops without consuming input (R2: no stutter path in any step function or dispatcher iteration); truncated input is an error at every entry point that knows the end (R8: one-shot entry points and decoders pass through the end-of-input check, the check itself tests the open-state stack).",
 		NotDecided:  "runtime panics from arithmetic the analysis does not follow, livelock between two states (R2 proves absence of stutter, not termination), time/memory proportionality.",
 		Assumptions: []string{"the parser only ever stores parser-state enum values that its dispatchers handle (fall-out of a switch over a state enum that leads straight to a return is not treated as an input-reachable path)"},
 		TrustedBase: baseTrusted,
@@ -13,6 +13,8 @@ func init() {
 			{"R9", R9("json", "cborl", "ubjson")},
 			{"R8", R8("json", "cborl", "ubjson")},
 			{"R13", R13("parsers")},
+			{"R4", R4("json", "cborl", "ubjson")},
+			{"R5", R5("json", "cborl", "ubjson")},
 		},
 		LevelText: "Structural necessary conditions decided on every SSA path of the ~55 step functions, 3 dispatchers, 12 entry points and all panic sites of the three codecs. Each clause is necessary (breaking it makes some byte sequence hang, crash or be accepted when truncated); together they are not sufficient for the whole property.",
 		Technique: "stutter-freedom path analysis over the parser step families (consume / state-effect / delegate / error on every path, must-state summaries), panic-site enumeration with mechanical exceptions, must-pass-through for end-of-input",
@@ -177,5 +179,22 @@ func init() {
 		LevelText: "Structural necessary conditions decided on every path of ~170 encoder methods, plus exact constant evaluation of the escape-table initialiser. Tests only check that the library's own parser reads the encoder's output for 95 samples; an encoder and parser wrong in the same way pass, shapes outside the samples are never produced.",
 		Technique: "stack-delta path analysis; constant folding of the table initialiser over SSA; dominance rules for the float guard and format arguments; first-write-after-separator path rule; interval analysis of number conversions; scratch live-range overlap",
 		DesignRef: "DESIGN.md section 2 R6, R19, R5, R21; section 3 C07",
+	})
+	register(&PropSpec{
+		ID:    "C04",
+		Level: "other",
+		Decided: "no integer literal is reported as a different number on the integer path (R5 on the json number functions); string decoding does not read outside the literal and copies the bytes it decoded: every index/slice of the input in the scan loops of unquote is below the input length on every path (R4-I1); the chunk head is only read from non-empty chunks (R4-I0); a chunk boundary in insignificant whitespace does not move the grammar position (R3 TRIM-GUARD); no step can stutter (R2).",
+		NotDecided: "the language of the grammar and the value of every text (escape semantics, surrogate pairing, float rounding - strconv.ParseFloat is trusted; lexical leniencies such as '-' alone, '+1', '.5', Latin-1 whitespace are neither required nor excluded by the property as stated). A reference-decoder comparison is a different family.",
+		Assumptions: []string{"strconv.ParseUint of n hex digits yields a value below 16^n"},
+		TrustedBase: baseTrusted,
+		Rules: []RuleRun{
+			{"R5", R5("json")},
+			{"R4", R4("json")},
+			{"R3", R3("json")},
+			{"R2", R2("json")},
+		},
+		LevelText: "Structural necessary conditions on every path of the json number, string and step functions. The parser is only ever fed text produced by the library's own encoder; the index-fact rule covers every escape placement at once.",
+		Technique: "interval analysis of integer conversions; relational index-below-length facts carried through '+const' on SSA paths of scan loops; emptiness guards on chunk heads; trim-guard and stutter-freedom",
+		DesignRef: "DESIGN.md section 2 R4, R5, R3, R2; section 3 C04",
 	})
 }
